@@ -135,24 +135,27 @@ def mkMapping (ip : Str) (proto : Str) (start hs he : Nat) (hasHost single : Boo
   { key := natToDec (start + i) ++ '/' :: proto
     cfg := { hostIP := ip, target := start + i, published := hp, protocol := proto } }
 
+/-- the part of `nat.ParsePortSpec` after the string has been cut into its sections -/
+def portCore (ip host cont proto : Str) : Option (List Mapping) :=
+  if ip ≠ [] && !validIP ip then none
+  else if cont = [] then none
+  else match parsePortRange cont with
+    | none => none
+    | some (s, e) =>
+      match (if host = [] then some (0, 0) else parsePortRange host) with
+      | none => none
+      | some (hs, he) =>
+        if host ≠ [] && (e - s ≠ he - hs) && e ≠ s then none
+        else if !validProto (lower proto) then none
+        else some ((List.range (e - s + 1)).map (mkMapping ip (lower proto) s hs he (host ≠ []) (s = e)))
+
 /-- `nat.ParsePortSpec`; `none` = error -/
 def parsePortSpec (raw : Str) : Option (List Mapping) :=
-  let (rawIP, host, cont) := splitParts (splitOn ':' raw)
-  let (proto, cont) := splitProtoPort cont
-  match splitHostColon rawIP with
+  match splitHostColon (splitParts (splitOn ':' raw)).1 with
   | none => none
   | some ip =>
-    if ip ≠ [] && !validIP ip then none
-    else if cont = [] then none
-    else match parsePortRange cont with
-      | none => none
-      | some (s, e) =>
-        match (if host = [] then some (0, 0) else parsePortRange host) with
-        | none => none
-        | some (hs, he) =>
-          if host ≠ [] && (e - s ≠ he - hs) && e ≠ s then none
-          else if !validProto (lower proto) then none
-          else some ((List.range (e - s + 1)).map (mkMapping ip (lower proto) s hs he (host ≠ []) (s = e)))
+    portCore ip (splitParts (splitOn ':' raw)).2.1
+      (splitProtoPort (splitParts (splitOn ':' raw)).2.2).2 (splitProtoPort (splitParts (splitOn ':' raw)).2.2).1
 
 /-- Go `<` on strings (byte-wise; the keys are ASCII) -/
 def strLt : Str → Str → Bool
